@@ -58,6 +58,12 @@ def cmpRes (F : FloatOps) (f : FloatOps → Val → Val → Option Bool) (a b : 
   | some x, some y => match f F x y with | some r => .ok (.bool r) | none => .err .type
   | _, _ => .err .type
 
+/-- `*index >= 0` in `list.get / tuple.get / map.get_index`: `PartialOrd<i32> for KNumber` truncates a
+float toward zero first (`-0.5` counts as `0`), unlike `validate_index`'s float comparison -/
+def truncNeg (F : FloatOps) : Num → Bool
+  | .i n => decide (n < 0)
+  | .f b => decide (F.toInt b < 0)
+
 /-- an assignment expression evaluates to the assigned value -/
 def withRes (v : HVal) (r : Heap × Res) : Heap × Res :=
   match r.2 with
@@ -88,15 +94,30 @@ def applyOp (F : FloatOps) (mech : Bool) (name : String) (args : List HVal) (hea
   | "swap", [.lref h, .lref h'] => swapLists heap h h'   -- with itself: a no-op (fix 515abf4)
   | "retain", [.lref h, v] =>
     onList F heap h (.retain (fun x => heq F fuelDefault heap x v == some true))
+  | "retainfn", [.lref h] =>
+    -- `l.retain(|x| x > 1)`: `>` raises for anything but a number
+    onList F heap h (.retainFn (fun x => match x with | .num n => some (numGt F n (.i 1)) | _ => none))
+  | "extendinc", [.lref h, src] =>
+    -- `l.extend(src.each(|x| x + 1))`: the values are collected first (fix 515abf4), so a failing
+    -- adaptor leaves the list untouched
+    (match (match src with | .tuple ys => some ys | .lref h' => getList heap h' | _ => none) with
+     | some ys =>
+       (match mapOpt (fun y => match y with | HVal.num n => some (HVal.num (Num.add F n (.i 1))) | _ => none) ys with
+        | some zs => onList F heap h (.extend zs)
+        | none => (heap, .err .type))
+     | none => (heap, .err .type))
+  | "sortval", [.mref h] => onMap F mech heap h .sortVal
+  | "updateinc", [.mref h, k, d] =>
+    (match toKey? k with | some key => onMap F mech heap h (.updateInc key d) | none => (heap, .err .unhashable))
   | "first", [.lref h] => (heap, match getList heap h with | some xs => .ok (xs.head?.getD .null) | none => .err .type)
   | "last", [.lref h] => (heap, match getList heap h with | some xs => .ok (xs.getLast?.getD .null) | none => .err .type)
   | "get", [.lref h, .num i] =>
     (heap, match getList heap h with
-      | some xs => .ok (if numNeg F i then .null else xs[numToNat F i]?.getD .null)
+      | some xs => .ok (if truncNeg F i then .null else xs[numToNat F i]?.getD .null)
       | none => .err .type)
   | "get", [.lref h, .num i, d] =>
     (heap, match getList heap h with
-      | some xs => .ok (if numNeg F i then d else xs[numToNat F i]?.getD d)
+      | some xs => .ok (if truncNeg F i then d else xs[numToNat F i]?.getD d)
       | none => .err .type)
   | "contains", [.lref h, v] =>
     (heap, match getList heap h with
@@ -106,8 +127,8 @@ def applyOp (F : FloatOps) (mech : Bool) (name : String) (args : List HVal) (hea
   -- tuples
   | "first", [.tuple xs] => (heap, .ok (xs.head?.getD .null))
   | "last", [.tuple xs] => (heap, .ok (xs.getLast?.getD .null))
-  | "get", [.tuple xs, .num i] => (heap, .ok (if numNeg F i then .null else xs[numToNat F i]?.getD .null))
-  | "get", [.tuple xs, .num i, d] => (heap, .ok (if numNeg F i then d else xs[numToNat F i]?.getD d))
+  | "get", [.tuple xs, .num i] => (heap, .ok (if truncNeg F i then .null else xs[numToNat F i]?.getD .null))
+  | "get", [.tuple xs, .num i, d] => (heap, .ok (if truncNeg F i then d else xs[numToNat F i]?.getD d))
   | "contains", [.tuple xs, v] => (heap, .ok (.bool (xs.any (fun x => heq F fuelDefault heap v x == some true))))
   | "to_list", [.tuple xs] => let r := allocList heap xs; (r.1, .ok r.2)
   | "sort_copy", [.tuple xs] =>
@@ -131,7 +152,7 @@ def applyOp (F : FloatOps) (mech : Bool) (name : String) (args : List HVal) (hea
       | _, none => .err .type)
   | "get_index", [.mref h, .num i] =>
     (heap, match getMap heap h with
-      | some es => .ok (if numNeg F i then .null else
+      | some es => .ok (if truncNeg F i then .null else
           match es[numToNat F i]? with | some (k, x) => .tuple [ofVal k, x] | none => .null)
       | none => .err .type)
   | "contains_key", [.mref h, k] =>
